@@ -2598,7 +2598,10 @@ class Workflow(Trellis):
         The directory is only removed if it is empty by then,
         so marking one that other files still live in is harmless.
         The root directory is never marked.
+        Neither is the root of an attached static tree or a directory inside one:
+        a static tree is user-provided as a whole, StepUp never creates directories in it,
+        and removing the emptied root would make the next `static()` call of the plan fail.
         """
         path = Path(path).normpath()
-        if path != ".":
+        if path != "." and self._find_owning_static_tree(path + os.sep) is None:
             self.to_be_deleted[path + os.sep] = None
